@@ -339,8 +339,23 @@ package lua
 //@ ensures  "below": forall k int :: 0 <= k && k < regv && k < old(top(L)) ==> L.reg.array[k] == old(L.reg.array[k])
 //@ modifies L.reg.array, L.reg.top, L.reg.array[*]
 
-//@ trusted switchToParentThread [C06]
-//@ assume switchToParentThread: contract of C06, to be verified there
+//@ dyn context.CancelFunc [C06 C11]
+//@ assume a context cancel function does not touch interpreter state
+//@ noraise
+//@ modifies nothing
+
+// switchToParentThread(L, nargs, haserror, kill): control goes back to the resumer; it receives true/false (plain
+// coroutines only) followed by the nargs top-most values of L in order; L's current frame is popped.
+//@ func switchToParentThread [C06]
+//@ requires L != nil && Inv_api(L) && L.G != nil && L.currentFrame != nil && L.currentFrame.Fn != nil && L.stack != nil && $inv(L.stack) && $sp(L.stack) >= 1 && nargs >= 0
+//@ requires L.Parent != nil ==> Inv_api(L.Parent) && L.Parent != L && L.Parent.reg != L.reg && arrid(L.Parent.reg.array) != arrid(L.reg.array) && L.Parent.currentFrame != L.currentFrame
+//@ requires L.currentFrame.LocalBase - L.currentFrame.ReturnBase >= 0 && L.currentFrame.LocalBase - L.currentFrame.ReturnBase <= L.reg.top - min(nargs, top(L) - base(L))
+//@ raises when L.Parent == nil || top(L.Parent) + 1 + nargs > cap(L.Parent.reg.array)
+//@ ensures  "switch": L.G.CurrentThread == old(L.Parent) && L.Parent == nil && (kill ==> L.Dead) && (!kill ==> L.Dead == old(L.Dead))
+//@ ensures  "flag": !old(L.wrapped) ==> old(L.Parent).reg.array[old(top(L.Parent))] == ite(haserror, LFalse, LTrue)
+//@ ensures  "count": top(old(L.Parent)) == old(top(L.Parent) + ite(L.wrapped, 0, 1) + xm(L, nargs))
+//@ ensures  "values": forall k int :: old(top(L.Parent) + ite(L.wrapped, 0, 1)) <= k && k < top(old(L.Parent)) ==> old(L.Parent).reg.array[k] == old(L.reg.array[top(L) - xm(L, nargs) + k - top(L.Parent) - ite(L.wrapped, 0, 1)])
+//@ ensures  "frame-popped": $sp(L.stack) == old($sp(L.stack)) - 1 && top(L) == old(top(L) - xm(L, nargs) - (L.currentFrame.LocalBase - L.currentFrame.ReturnBase))
 //@ modifies everything
 
 // OP_RETURN: thin contract (no implicit Go panic; the inlined closeUpvalues and copyReturnValues/CopyRange/FillNil
@@ -371,3 +386,22 @@ package lua
 //@ ensures  "suspended": result == "suspended" <==> !th.Dead && ls.G.CurrentThread != th && !ancestor(ls.G.CurrentThread, th)
 //@ modifies nothing
 //@ loop 1 invariant !th.Dead && ls.G.CurrentThread != th && status == "suspended" && (ancestor(ls.G.CurrentThread, th) <==> ancestor(p, th))
+
+// XMoveTo(other, n): the min(n, GetTop()) top-most values of ls appear on other in the same order, above its old
+// top; ls loses exactly those; nothing else moves.
+//@ define xm(ls *LState, n int) int = min(n, top(ls) - base(ls))
+//@ func (*LState).XMoveTo [C06]
+//@ requires Inv_api(ls) && other != nil && Inv_api(other) && n >= 0 && ls.G != nil && (ls.currentFrame != nil ==> ls.currentFrame.Fn != nil)
+//@ requires ls != other ==> ls.reg != other.reg && arrid(ls.reg.array) != arrid(other.reg.array) && other.currentFrame != ls.currentFrame
+//@ raises when ls != other && top(other) + xm(ls, n) > cap(other.reg.array)
+//@ ensures  Inv_api(ls) && Inv_api(other) && ls.reg == old(ls.reg) && other.reg == old(other.reg) && arrid(ls.reg.array) == old(arrid(ls.reg.array)) && arrSameOrFresh(other.reg)
+//@ ensures  "same-state": ls == other ==> top(ls) == old(top(ls)) && (forall k int :: 0 <= k && k < top(ls) ==> ls.reg.array[k] == old(ls.reg.array[k]))
+//@ ensures  "counts": ls != other ==> top(other) == old(top(other) + xm(ls, n)) && top(ls) == old(top(ls) - xm(ls, n)) && base(ls) == old(base(ls)) && base(other) == old(base(other))
+//@ ensures  "moved": ls != other ==> forall k int :: old(top(other)) <= k && k < top(other) ==> other.reg.array[k] == old(ls.reg.array[top(ls) - xm(ls, n) + k - top(other)])
+//@ ensures  "kept": ls != other ==> (forall k int :: 0 <= k && k < old(top(other)) ==> other.reg.array[k] == old(other.reg.array[k])) && (forall k int :: 0 <= k && k < top(ls) ==> ls.reg.array[k] == old(ls.reg.array[k]))
+//@ modifies ls.reg.array, ls.reg.top, ls.reg.array[*], other.reg.array, other.reg.top, other.reg.array[*]
+//@ loop 1 invariant Inv_api(ls) && Inv_api(other) && ls != other && 0 <= i && i <= n && n == old(xm(ls, n)) && top == old(top(ls) - base(ls)) && top(ls) == old(top(ls)) && base(ls) == old(base(ls)) && base(other) == old(base(other)) && ls.reg == old(ls.reg) && other.reg == old(other.reg) && top(other) == old(top(other)) + n - i
+//@ loop 1 invariant arrid(ls.reg.array) == old(arrid(ls.reg.array)) && arrSameOrFresh(other.reg) && cap(other.reg.array) >= old(cap(other.reg.array)) && ls.G == old(ls.G) && ls.currentFrame == old(ls.currentFrame)
+//@ loop 1 invariant forall k int :: 0 <= k && k < top(ls) ==> ls.reg.array[k] == old(ls.reg.array[k])
+//@ loop 1 invariant forall k int :: 0 <= k && k < old(top(other)) ==> other.reg.array[k] == old(other.reg.array[k])
+//@ loop 1 invariant forall k int :: old(top(other)) <= k && k < top(other) ==> other.reg.array[k] == old(ls.reg.array[top(ls) - xm(ls, n) + k - top(other)])
